@@ -162,7 +162,8 @@ def gen_together(r, ncases, parallel):
     ops = []
     for _ in range(ncases):
         ops.append(f"#case su parallel={int(parallel)}")
-        ops.append(f"su.open parallel={int(parallel)} yield_us={r.range(20, 60)}")
+        # createpar=1: the controllers are created before the configured value of the option is in force (seed C16k)
+        ops.append(f"su.open parallel={int(parallel)} yield_us={r.range(20, 60)}" + (" createpar=1" if (not parallel and r.chance(0.35)) else ""))
         n = r.range(2, 4)
         ids = [f"t{i}" for i in range(n)]
         quants = r.shuffle([0, 2, 4, 8, 16, 32])[:n]
